@@ -602,6 +602,11 @@ struct CompileEnv {
     plan: Option<SinkPlan>,
     /// read the lexicon in two parts (split after this many lines) with resolve + compile in between
     staged_at: Option<usize>,
+    /// before the compile that counts, compile once on the same builder into a device that fails for good at this
+    /// byte offset (disk full): the failed attempt must leave nothing behind that changes the next output
+    failed_first: Option<usize>,
+    /// another matrix of the same shape (no zero cell) read into the builder before the real one
+    decoy_matrix: Option<String>,
 }
 
 /// compile on a fresh thread (fresh hasher keys) under the simulated clock
@@ -623,6 +628,9 @@ fn compile_on_thread(
                         let mut b = DictBuilder::new_system();
                         b.set_compile_time(SystemTime::UNIX_EPOCH + Duration::from_secs(time));
                         b.set_description(desc.clone());
+                        if let Some(d) = &env.decoy_matrix {
+                            b.read_conn(d.as_bytes()).map_err(|e| format!("read_conn(decoy): {}", e))?;
+                        }
                         b.read_conn(matrix.as_bytes()).map_err(|e| format!("read_conn: {}", e))?;
                         match env.staged_at {
                             None => {
@@ -642,6 +650,14 @@ fn compile_on_thread(
                             }
                         }
                         b.resolve().map_err(|e| format!("resolve: {}", e))?;
+                        if let Some(at) = env.failed_first {
+                            let mut bad = FaultySink::new(SinkPlan {
+                                events: vec![SinkEvent::Hard { at, err: "StorageFull".into(), mode: if at % 2 == 0 { "prefix" } else { "whole" }.into(), sticky: true }],
+                                max_chunk: 0,
+                                fail_flush: false,
+                            });
+                            let _ = b.compile(&mut bad);
+                        }
                         b.compile(&mut sink).map_err(|e| format!("compile: {}", e))?;
                     }
                     Some(sys) => {
@@ -654,6 +670,14 @@ fn compile_on_thread(
                         b.set_description(desc.clone());
                         b.read_lexicon(csv.as_bytes()).map_err(|e| format!("read_lexicon(user): {}", e))?;
                         b.resolve().map_err(|e| format!("resolve(user): {}", e))?;
+                        if let Some(at) = env.failed_first {
+                            let mut bad = FaultySink::new(SinkPlan {
+                                events: vec![SinkEvent::Hard { at, err: "StorageFull".into(), mode: if at % 2 == 0 { "prefix" } else { "whole" }.into(), sticky: true }],
+                                max_chunk: 0,
+                                fail_flush: false,
+                            });
+                            let _ = b.compile(&mut bad);
+                        }
                         b.compile(&mut sink).map_err(|e| format!("compile(user): {}", e))?;
                     }
                 }
@@ -864,6 +888,17 @@ pub fn execute(case: &RtCase, stats: &mut Stats, work: &Path) -> Option<Violatio
                 max_jump: case.max_jump_s,
                 plan,
                 staged_at: if k == 1 && case.sink_seed % 3 == 0 && !sys_csv.contains('"') { Some((case.sink_seed as usize / 3) % (rec.system.entries.len().max(1))) } else { None },
+                decoy_matrix: if k == 1 && case.sink_seed % 7 == 3 {
+                    let m = crate::world::MatrixSpec {
+                        num_left: rec.matrix.num_left,
+                        num_right: rec.matrix.num_right,
+                        costs: (0..rec.matrix.costs.len()).map(|i| 7 + (i % 5) as i16).collect(),
+                    };
+                    Some(m.render(&mut Rng::new(0), false))
+                } else {
+                    None
+                },
+                failed_first: if k == 1 && case.sink_seed % 5 == 1 { Some((case.sink_seed as usize / 5) % 6000) } else { None },
             },
         );
         let (sys_bytes, reads, now) = match r {
@@ -909,7 +944,8 @@ pub fn execute(case: &RtCase, stats: &mut Stats, work: &Path) -> Option<Violatio
                 csv,
                 case.compile_time,
                 case.description.clone(),
-                CompileEnv { clock_seed: case.clock_seeds[k] ^ (ui as u64 + 1), max_jump: case.max_jump_s, plan, staged_at: None },
+                CompileEnv { clock_seed: case.clock_seeds[k] ^ (ui as u64 + 1), max_jump: case.max_jump_s, plan, staged_at: None, decoy_matrix: None,
+                             failed_first: if k == 1 && case.sink_seed % 5 == 2 { Some((case.sink_seed as usize / 5 + ui * 97) % 2500) } else { None } },
             );
             match r {
                 Err(p) => return viol("panic", &p.site, k, json!({"stage":"compile-user","message":p.msg,"user":ui})),
